@@ -55,33 +55,13 @@ func findLookup(p *Prog) (*lookupInfo, error) {
 	return li, nil
 }
 
-func rulesC09(p *Prog, r *Report) {
-	t, err := p.LoadTables()
-	r.Rule("A1", "exact", 3, "the id tables are compile-time constants the checker can evaluate")
-	if err != nil {
-		r.Unknown("A1", "tables", "-", err.Error())
-		return
-	}
-	r.OK("A1", "GetLicenses", "-", "evaluated", "", true)
-	r.OK("A1", "GetDeprecated", "-", "evaluated", "", true)
-	r.OK("A1", "GetExceptions", "-", "evaluated", "", true)
-	ruleFoldUnique(p, r, t, "K0a")
-	kw, kerr := scannerKeywords(p)
-	if kerr != nil {
-		r.Rule("K0b", "necessary", 500, "keyword prefixes")
-		r.Unknown("K0b", "scanner-keywords", "-", kerr.Error())
-	} else {
-		ruleKeywordPrefix(p, r, t, kw.All(), "K0b")
-	}
-
-	r.Rule("K1", "necessary", 4, "the list lookup compares list element and probe with strings.EqualFold and, on success, returns the list element (never the probe); every wrapper passes a table getter's fresh result as the list")
-	r.Rule("K2", "necessary", 3, "only list spelling reaches tokens and nodes: license/exception tokens take their value from the lookup's string result under the lookup's success; license and exception fields of nodes take their values from token values only")
-	r.Rule("K3", "necessary", 3, "downstream comparisons of license/exception text are between canonical strings")
-
+// ruleK1: shape of the list lookup and of its wrappers (shared by C09, C07 and C12).
+func ruleK1(p *Prog, r *Report) *lookupInfo {
+	r.Rule("K1", "necessary", 4, "the list lookup is one full forward scan that compares every list element with the probe by strings.EqualFold and, on success, returns the list element (never the probe); nothing ends an iteration before the comparison; every wrapper passes a table getter's fresh result as the list")
 	li, err := findLookup(p)
 	if err != nil {
 		r.Unknown("K1", "lookup", "-", err.Error())
-		return
+		return nil
 	}
 	f := li.Lookup
 	r.Funcs[p.shortKey(f)] = true
@@ -124,6 +104,38 @@ func rulesC09(p *Prog, r *Report) {
 		if trueRets == 0 {
 			probs = append(probs, "no success return found")
 		}
+		// exhaustive: one full forward range over the list, and nothing can end an iteration before the comparison
+		var hdrs []*ssa.BasicBlock
+		for _, b := range f.Blocks {
+			if isLoopHeader(b) {
+				hdrs = append(hdrs, b)
+			}
+		}
+		var test *ssa.BasicBlock
+		for _, b := range f.Blocks {
+			if iff, ok := b.Instrs[len(b.Instrs)-1].(*ssa.If); ok {
+				if c, ok := iff.Cond.(*ssa.Call); ok && c.Call.StaticCallee() != nil && c.Call.StaticCallee().String() == "strings.EqualFold" {
+					test = b
+				}
+			}
+		}
+		if len(hdrs) != 1 || test == nil {
+			probs = append(probs, fmt.Sprintf("the lookup is not one loop over the list with an EqualFold test per element (%d loops)", len(hdrs)))
+		} else {
+			h := hdrs[0]
+			full := false
+			if ifi, ok := h.Instrs[len(h.Instrs)-1].(*ssa.If); ok {
+				if cmp, ok := ifi.Cond.(*ssa.BinOp); ok && cmp.Op == token.LSS {
+					if ln, ok := cmp.Y.(*ssa.Call); ok && len(ln.Call.Args) == 1 && ln.Call.Args[0] == ssa.Value(f.Params[0]) && isRangeIndexOf(cmp.X, f.Params[0]) == nil {
+						full = true
+					}
+				}
+			}
+			if !full {
+				probs = append(probs, "the loop of the lookup is not a full forward range over the list: entries can be passed over (the tables are not sorted under case folding)")
+			}
+			probs = append(probs, skipsInSearch(p, hdrs, test)...)
+		}
 		if len(probs) > 0 {
 			r.Bad("K1", p.shortKey(f), p.pos(f.Pos()), strings.Join(probs, "; "))
 		} else {
@@ -143,6 +155,36 @@ func rulesC09(p *Prog, r *Report) {
 		}
 	}
 
+	return li
+}
+
+func rulesC09(p *Prog, r *Report) {
+	t, err := p.LoadTables()
+	r.Rule("A1", "exact", 3, "the id tables are compile-time constants the checker can evaluate")
+	if err != nil {
+		r.Unknown("A1", "tables", "-", err.Error())
+		return
+	}
+	r.OK("A1", "GetLicenses", "-", "evaluated", "", true)
+	r.OK("A1", "GetDeprecated", "-", "evaluated", "", true)
+	r.OK("A1", "GetExceptions", "-", "evaluated", "", true)
+	ruleFoldUnique(p, r, t, "K0a")
+	kw, kerr := scannerKeywords(p)
+	if kerr != nil {
+		r.Rule("K0b", "necessary", 500, "keyword prefixes")
+		r.Unknown("K0b", "scanner-keywords", "-", kerr.Error())
+	} else {
+		ruleKeywordPrefix(p, r, t, kw.All(), "K0b")
+	}
+
+	r.Rule("K2", "necessary", 3, "only list spelling reaches tokens and nodes: license/exception tokens take their value from the lookup's string result under the lookup's success; license and exception fields of nodes take their values from token values only")
+	r.Rule("K3", "necessary", 3, "downstream comparisons of license/exception text are between canonical strings")
+
+	li := ruleK1(p, r)
+	if li == nil {
+		return
+	}
+	bp := newBoundsProver(p, sharedEngineLite(p))
 	// K2: token literals with an id role
 	tokT := p.ExpPkg.Types.Scope().Lookup("token")
 	lnp := p.ExpPkg.Types.Scope().Lookup("licenseNodePartial")
